@@ -27,6 +27,7 @@ RULE = ('corpus = ~170 unique inputs (valid and invalid statements x parse_sql i
         'time-series queries, SqlalchemyRender in 4 dialects); each judged under >= 2 of the axes {threads, history, hashseed, catalog re-use}; '
         'non-trivial = input judged under >= 2 schedules / histories / seeds; distinct by (input, axis)')
 RULE += "; also: syntax errors of every shape (mutations), joins on several key pairs, nested selects shared between statements, renderers built from the caller's dialect object, the prepare API; golden results from a process that has only imported the library (fork per input); dialect class attributes in the monitored class state"
+RULE += '; star / star-alias statements and names spelled like keywords; cold-start rounds (a fresh process whose first library calls are made by 8 threads at once)'
 ASSUMPTIONS = ['golden = result in a fresh process, PYTHONHASHSEED=0, fresh argument objects, fixed order (a shuffled-order run must reproduce it)',
                'interleavings are sampled (yield injection at line granularity), not enumerated',
                'a catalog mutation that does not change any later result (e.g. a default key added once) is not a violation']
